@@ -738,6 +738,27 @@ func (c *simCtx) oracleCmp(b *ssa.BinOp) (bool, bool) {
 	default:
 		return false, false
 	}
+	// both sides are integers known under this activation (a concrete witness call)
+	if isIntType(b.X.Type()) && isIntType(b.Y.Type()) {
+		if x, ok := c.intConstOf(b.X); ok {
+			if y, ok := c.intConstOf(b.Y); ok {
+				switch b.Op {
+				case token.LSS:
+					return x < y, true
+				case token.LEQ:
+					return x <= y, true
+				case token.GTR:
+					return x > y, true
+				case token.GEQ:
+					return x >= y, true
+				case token.EQL:
+					return x == y, true
+				case token.NEQ:
+					return x != y, true
+				}
+			}
+		}
+	}
 	switch c.sc.Kind {
 	case scRegion, scEmpty:
 		// both sides bounded: the subject's region against a quantity of known sign / size
@@ -917,6 +938,46 @@ func neverReturnsError(w *World, ev ssa.Value) bool {
 func (c *simCtx) intConstOf(v ssa.Value) (int64, bool) {
 	if k, ok := constInt(v); ok {
 		return k, true
+	}
+	// the subject itself, when the scenario pins it to one integer (a witness value)
+	if c.sc.Kind == scRegion && c.sc.Lo == c.sc.Hi && !c.sc.Elem && c.sc.Acc == nil && !c.sc.Fields && c.sc.SField == 0 && c.sc.Lo == math.Trunc(c.sc.Lo) && math.Abs(c.sc.Lo) < 1e15 {
+		if c.sc.Param < len(c.f.Params) && resolve(v) == ssa.Value(c.f.Params[c.sc.Param]) && isIntType(v.Type()) {
+			return int64(c.sc.Lo), true
+		}
+	}
+	switch x := resolve(v).(type) {
+	case *ssa.Phi:
+		if sel, ok := c.phiSel[x]; ok && sel != ssa.Value(x) {
+			return c.intConstOf(sel)
+		}
+	case *ssa.UnOp:
+		if x.Op == token.SUB {
+			if k, ok := c.intConstOf(x.X); ok {
+				return -k, true
+			}
+		}
+	case *ssa.Call:
+		if calleeIs(x, modPath+"/common", "CalculateArithmeticShift") && len(x.Call.Args) == 2 {
+			a, ok1 := c.intConstOf(x.Call.Args[0])
+			sh, ok2 := c.intConstOf(x.Call.Args[1])
+			if ok1 && ok2 && sh > -63 && sh < 63 {
+				if sh >= 0 {
+					if r := a << uint(sh); r>>uint(sh) == a {
+						return r, true
+					}
+					return 0, false
+				}
+				return a >> uint(-sh), true
+			}
+		}
+	case *ssa.BinOp:
+		if x.Op == token.MUL {
+			a, ok1 := c.intConstOf(x.X)
+			b, ok2 := c.intConstOf(x.Y)
+			if ok1 && ok2 {
+				return a * b, true
+			}
+		}
 	}
 	if b, ok := resolve(v).(*ssa.BinOp); ok && (b.Op == token.ADD || b.Op == token.SUB) {
 		x, okx := c.intConstOf(b.X)
@@ -1488,8 +1549,24 @@ func (c *simCtx) explore(start *ssa.BasicBlock, stop map[*ssa.BasicBlock]bool) m
 						break
 					}
 					if !isErrorType(ph.Type()) {
-						if bt, isB := ph.Type().Underlying().(*types.Basic); !isB || bt.Kind() != types.Bool {
+						bt, isB := ph.Type().Underlying().(*types.Basic)
+						if !isB {
 							continue
+						}
+						if bt.Kind() != types.Bool {
+							// numbers too (minIndex := 0 or -2^z chosen by a flag), but not loop counters
+							if bt.Info()&types.IsNumeric == 0 {
+								continue
+							}
+							loopHdr := false
+							for _, pred := range b.Preds {
+								if b.Dominates(pred) {
+									loopHdr = true
+								}
+							}
+							if loopHdr {
+								continue
+							}
 						}
 					}
 					for k, pred := range b.Preds {
@@ -1605,9 +1682,8 @@ func (c *simCtx) verdict(reach map[*ssa.BasicBlock]bool, loop *sliceRange) (bool
 		if reach[loop.Header] {
 			return false, "an iteration with such an element can continue with the next element (no error)"
 		}
-		if reach[loop.Done] {
-			return false, "an iteration with such an element can leave the loop without an error"
-		}
+		// leaving the loop (break with a pending error, single exit) is judged by the returns
+		// that are reachable afterwards, below
 	}
 	for _, r := range returnsOf(c.f) {
 		if !reach[r.Block()] {
@@ -1960,9 +2036,12 @@ func (c *simCtx) arith(v ssa.Value, depth int) bool {
 		return true
 	}
 	if !c.mentionsSubject(v, 0) {
-		// independent of the subject: an arbitrary but fixed quantity
+		// independent of the subject: an arbitrary but fixed quantity -- provided it really is
+		// a free input (another parameter, a field or getter of one, constants, arithmetic and
+		// 2^z of those).  A bound read from a local array, a table, a map or computed by a
+		// helper the oracle cannot evaluate is a constant it failed to read, not "any value"
 		b, isB := v.Type().Underlying().(*types.Basic)
-		return isB && b.Info()&types.IsNumeric != 0
+		return isB && b.Info()&types.IsNumeric != 0 && c.freeQuantity(v, 0)
 	}
 	switch x := v.(type) {
 	case *ssa.BinOp:
@@ -2004,6 +2083,11 @@ func (c *simCtx) boundsOf(v ssa.Value, depth int) (float64, float64, bool) {
 		return lo, hi, true
 	}
 	v = resolve(v)
+	if ph, ok := v.(*ssa.Phi); ok {
+		if sel, ok := c.phiSel[ph]; ok && sel != ssa.Value(ph) {
+			return c.boundsOf(sel, depth+1)
+		}
+	}
 	if k, ok := c.constUnder(v); ok {
 		return k, k, true
 	}
@@ -2012,6 +2096,10 @@ func (c *simCtx) boundsOf(v ssa.Value, depth int) (float64, float64, bool) {
 	case *ssa.Call:
 		if calleeIs(x, modPath+"/common", "CalculateArithmeticShift") {
 			if k, ok := constInt(x.Call.Args[0]); ok && k == 1 {
+				if sh, known := c.intConstOf(x.Call.Args[1]); known && sh >= 0 && sh <= 62 {
+					p := math.Pow(2, float64(sh))
+					return p, p, true
+				}
 				return 0, big, true // 2^z, or 0 when shifted out
 			}
 		}
@@ -2275,6 +2363,63 @@ func (c *simCtx) assignedUnderSubjectTest(al *ssa.Alloc, depth int) bool {
 			if under && c.mentionsSubject(ifi.Cond, depth+2) {
 				return true
 			}
+		}
+	}
+	return false
+}
+
+// freeQuantity: a value built from constants and the function's inputs only.
+func (c *simCtx) freeQuantity(v ssa.Value, depth int) bool {
+	if depth > 8 {
+		return false
+	}
+	if _, _, ok := c.boundsOf(v, 0); ok {
+		return true
+	}
+	switch x := resolve(v).(type) {
+	case *ssa.Const, *ssa.Parameter:
+		return true
+	case *ssa.Convert:
+		return c.freeQuantity(x.X, depth+1)
+	case *ssa.BinOp:
+		return c.freeQuantity(x.X, depth+1) && c.freeQuantity(x.Y, depth+1)
+	case *ssa.UnOp:
+		if x.Op == token.SUB {
+			return c.freeQuantity(x.X, depth+1)
+		}
+		// field of a parameter (or of the receiver)
+		if x.Op == token.MUL {
+			if fa, ok := x.X.(*ssa.FieldAddr); ok {
+				return c.freeQuantity(fa.X, depth+1)
+			}
+		}
+	case *ssa.Field:
+		return c.freeQuantity(x.X, depth+1)
+	case *ssa.Phi:
+		for _, e := range x.Edges {
+			if !c.freeQuantity(e, depth+1) {
+				return false
+			}
+		}
+		return true
+	case *ssa.Call:
+		g := calleeOf(x)
+		if g == nil {
+			return false
+		}
+		if accessorField(g) != nil && len(x.Call.Args) == 1 {
+			return true
+		}
+		if calleeIs(x, modPath+"/common", "CalculateArithmeticShift") || (pkgOf(g) != nil && pkgOf(g).Path() == "math") {
+			for _, a := range x.Call.Args {
+				if !c.freeQuantity(a, depth+1) {
+					return false
+				}
+			}
+			return true
+		}
+		if bn := builtinName(x); bn == "len" || bn == "min" || bn == "max" {
+			return true
 		}
 	}
 	return false
